@@ -3,8 +3,8 @@
    add_page_declarations), model/C06Inherit.v (ComputedStyle.__missing__ / AnonymousStyle), model/C06Values.v
    (length, font_size, font_weight, line_height, evaluate_media_query).  Proofs: proofs/C06_*.v. *)
 From Coq Require Import ZArith QArith List Bool String.
-Require Import WV.model.C06Cascade WV.model.C06Inherit WV.model.C06Values.
-Require Import WV.proofs.C06_cascade WV.proofs.C06_order WV.proofs.C06_inherit WV.proofs.C06_values.
+Require Import WV.model.C06Cascade WV.model.C06Inherit WV.model.C06Values WV.model.C06Imports.
+Require Import WV.proofs.C06_cascade WV.proofs.C06_order WV.proofs.C06_inherit WV.proofs.C06_values WV.proofs.C06_imports.
 Require WV.base.Py WV.gen.GenCss WV.proofs.C06_gen_precedence WV.gen.GenMedia WV.proofs.C06_gen_media.
 Import ListNotations.
 
@@ -108,6 +108,49 @@ Theorem C06_later_sheet_later_rule_wins (V : Type) p attrs (sheets : list (sheet
   (d_sheet d = d_sheet w /\ (d_order d < d_order w \/ (d_order d = d_order w /\ d_idx d <= d_idx w))).
 Proof. exact (later_sheet_later_rule_wins V p attrs sheets n w d). Qed.
 Print Assumptions C06_later_sheet_later_rule_wins.
+
+(* ---- @import (model/C06Imports.v: flat = the walk of preprocess_stylesheet with its ignore_imports flag, an
+   imported sheet being loaded into the importing sheet's matcher every time its @import is met) *)
+
+(* loading recursively = substituting the text of every honoured @import at its place, each time, and reading the
+   rules of the resulting import-free sheet in text order *)
+Theorem C06_import_is_textual_substitution (V : Type) f fs allow (items : list (item V)) l :
+  flat f fs allow items = Some l ->
+  exists its, inline f fs allow items = Some its /\ has_import its = false /\ text_rules its = l.
+Proof. exact (flat_is_textual V f fs allow items l). Qed.
+Print Assumptions C06_import_is_textual_substitution.
+
+(* a sheet importing u, v, u holds the rules of u twice, around those of v *)
+Theorem C06_import_twice_is_textual (V : Type) f fs u v (a b : list (frule V)) :
+  flat f fs true (file fs u) = Some a -> flat f fs true (file fs v) = Some b ->
+  flat (4 + f) fs true [IImport u true; IImport v true; IImport u true] = Some (a ++ b ++ a).
+Proof. exact (import_twice_is_textual V f fs u v a b). Qed.
+Print Assumptions C06_import_twice_is_textual.
+
+(* sheets loaded from texts have distinct order numbers: the hypothesis of the source-order theorems holds *)
+Theorem C06_loaded_orders_distinct (V : Type) f fs (l : list (origin * list (item V))) sheets :
+  load_sheets f fs l = Some sheets -> orders_distinct sheets.
+Proof. exact (loaded_orders_distinct V f fs l sheets). Qed.
+Print Assumptions C06_loaded_orders_distinct.
+
+(* the last instance wins: on any application sequence P ++ B, when the segment B applied last holds a
+   declaration weighing at least the winner of P (e.g. B repeats an earlier segment of P), the winner is in B *)
+Theorem C06_last_segment_wins (V : Type) (P B : list (decl V)) n w0 d :
+  get (cascade P) n = Some w0 -> In d B -> d_name d = n -> wle w0 d ->
+  exists w, get (cascade (P ++ B)) n = Some w /\ In w B.
+Proof. exact (last_segment_wins V P B n w0 d). Qed.
+Print Assumptions C06_last_segment_wins.
+
+(* ... on a loaded sheet whose rules are P ++ B (B = the rules of the @import met last): a declaration from B
+   (order number above the selectors of P) that ties with the winner forces the winner to come from B too *)
+Theorem C06_last_import_instance_wins (V : Type) p attrs (sheets : list (sheet V)) n w d (P : list (frule V)) :
+  orders_distinct sheets ->
+  get (element_cascade p attrs sheets) n = Some w ->
+  In d (app_seq p attrs sheets) -> d_name d = n -> weight_of d = weight_of w ->
+  d_selspec d = d_spec d -> d_selspec w = d_spec w ->
+  d_sheet d = d_sheet w -> nsel P < d_order d -> nsel P < d_order w.
+Proof. exact (last_import_instance_wins V p attrs sheets n w d P). Qed.
+Print Assumptions C06_last_import_instance_wins.
 
 (* add_page_declarations: the same for the @page rules that match the page type, in list order *)
 Theorem C06_page_declarations_pick_max (V : Type) p (sheets : list (page_sheet V)) n :
